@@ -1,7 +1,7 @@
 (* Properties/C01.v — ancestor sets are the exact transitive closure (C01).
    Only statements; every proof is `exact <lemma>`. *)
 From Coq Require Import Relations.
-From HpoV Require Import Gen.Consts Model.Base Model.Group Model.Onto Run.World Run.C01 Proofs.C01P Proofs.ClosureP.
+From HpoV Require Import Gen.Consts Model.Base Model.Group Model.Onto Run.World Run.C01 Proofs.C01P Proofs.ClosureP Proofs.AcyclicP Proofs.DistP Proofs.QgoodP Model.Script.
 
 (* An observation of an ontology (per term: id, parents, children, all ancestors, as the read
    API reports them) that passes the executable statement [closure_ok] — which the check
@@ -61,6 +61,18 @@ Proof. exact binv_add_parent. Qed.
 Theorem C01_model_children_inverse : forall a, binv a -> forall c p, parent_rel a c p <-> child_rel a p c.
 Proof. exact b_inverse. Qed.
 
+(* connect_all_terms RETURNS ONLY ON ACYCLIC GRAPHS: whenever the fuelled transcription of the
+   recursion returns (the real recursion: terminates), for whatever fuel, no term is its own
+   ancestor — so the "irreflexive" half of the property needs no assumption on the input *)
+Theorem C01_connect_returns_only_on_acyclic_graphs : forall fuel a a', binv a ->
+  connect_all fuel a = Ok a' -> acyclic a /\ acyclic a'.
+Proof. exact connect_all_acyclic. Qed.
+
+(* every ontology a Builder script produces: unique ids in range, resolving links, sorted groups,
+   and EVERY ancestor cache exactly the transitive closure of the direct-parent relation *)
+Theorem C01_builder_ontologies_exact : forall icf s codes o, run_script icf s = Ok (codes, Ok o) -> qgood o.
+Proof. exact run_script_qgood. Qed.
+
 Print Assumptions C01_closure_exact.
 Print Assumptions C01_model_cache_is_transitive_closure.
 Print Assumptions C01_model_create_cache.
@@ -71,3 +83,5 @@ Print Assumptions C01_model_children_inverse.
 Print Assumptions C01_never_self.
 Print Assumptions C01_children_inverse.
 Print Assumptions C01_matrix_is_membership.
+Print Assumptions C01_connect_returns_only_on_acyclic_graphs.
+Print Assumptions C01_builder_ontologies_exact.
